@@ -201,9 +201,9 @@ async fn run_history(max_sessions: usize, evs: &[Ev], settle: Duration, ev: &mut
                 ended = true;
                 // the task must end
                 let t0 = Instant::now();
-                let joined = tokio::time::timeout(Duration::from_secs(60), &mut Box::pin(async { while !jh.is_finished() { tokio::time::sleep(Duration::from_millis(5)).await; } })).await;
+                let joined = tokio::time::timeout(Duration::from_secs(10), &mut Box::pin(async { while !jh.is_finished() { tokio::time::sleep(Duration::from_millis(5)).await; } })).await;
                 if joined.is_err() {
-                    problems.push((format!("server_task_did_not_end:{e:?}"), format!("step {step}: server task still running 60 s after {e:?}")));
+                    problems.push((format!("server_task_did_not_end:{e:?}"), format!("step {step}: server task still running 10 s after {e:?}")));
                     break;
                 }
                 ev.max("task_end_ms", t0.elapsed().as_millis() as u64);
@@ -311,6 +311,10 @@ pub fn run(args: &Args) -> i32 {
             }
         }
         n = hi;
+        if ev.violations.len() >= 6 {
+            ev.count("stopped_early_after_violations", 1);
+            break;
+        }
     }
     let meta = Meta {
         property_id: "C15",
